@@ -2,8 +2,8 @@
 EXTENDS Signature, Json, SequencesExt
 CONSTANTS ScenOut, MaxParams
 Rec(s) == [params |-> s.params, results |-> s.results, use |-> s.use, valid |-> Valid(s)]
-ASSUME ndJsonSerialize(ScenOut, SetToSeq({Rec(s) : s \in Sigs(MaxParams)}))
-ASSUME PrintT(<<"exported", Cardinality(Sigs(MaxParams))>>)
+ASSUME ndJsonSerialize(ScenOut, SetToSeq({Rec(s) : s \in Sigs(MaxParams) \cup ExtSigs}))
+ASSUME PrintT(<<"exported", Cardinality(Sigs(MaxParams) \cup ExtSigs)>>)
 VARIABLE x
 Init == x = 0
 Next == x' = x
